@@ -123,6 +123,7 @@ def bounded(leg, describe):
 EXPLORE = bounded("explore", "model-based exploration of the real Server over InMemoryStorage, SqliteStorage and SqliteStorage re-opened before every request; every response and the complete stored state (through the StorageTxn getters and, for SQLite, independent raw SQL) compared with the executable contract after every request")
 FAULTS = bounded("faults", "every storage call of a request (begin, reads, writes, commit) made to fail before / after taking effect, on SQLite behind a fault-injecting Storage wrapper")
 SQLCONF = bounded("sqlconf", "method-by-method conformance of sqlite/src/lib.rs to the storage contract (contracts/storage_trait.rs): every StorageTxn method from enumerated states, results and post-states compared with the contract, abstraction by independent raw SQL, commit / drop / re-open")
+STANDINS = bounded("standins", "value-level samples of the ASSUMED dependency contracts (actix-web builders / error constructors / header access / BytesMut, uuid text, thiserror From, derived Clone/Ord, HashMap::get_mut, Option::replace) against the real crates; samples an assumption, proves nothing")
 INTERLEAVE = bounded("interleave", "a complete competing library request placed between any two transactions of an HTTP request, on three backend configurations; outcome compared with both one-at-a-time orders")
 
 
@@ -222,14 +223,14 @@ def _configure():
     cfg("C03", "proof", ["A3", "A4", "A5", "A13"], assumptions=[A["A3"], A["A5"], "the reduction from interleavings to the three sequential obligations O1-O3 is a paper argument (DESIGN.md 5.C03), not machine-checked"],
         not_reached=["lock-wait budget / busy timeouts; anything inside SQLite or Mutex; partial overlap inside a transaction is excluded by A3/A5, not checked", NR_SQL],
         explanation="three sequential obligations: O1 every Server operation uses exactly one transaction opened for its own client (E9 twin + may_open); O2 every storage precondition in a handler is established inside the same transaction (Server::txn returns an arbitrary invariant-satisfying state); O3 effects reach durable state only through one commit and success is reported only after it",
-        legs=[INTERLEAVE])
+        legs=[INTERLEAVE, EXPLORE])
     cfg("C05", "proof", ["A4", "A5", "A6", "A13"], assumptions=[A["A5"]],
         not_reached=["error propagation inside sqlite/src/lib.rs itself (a swallowed rusqlite error there is invisible to Verus; the bounded fault leg injects faults at the StorageTxn boundary only)", NR_HTTP],
         explanation="the storage contract lets every call fail (fault counter); *.err_only_on_fault, av.err_atomic, *.ack_after_commit, *.drop_clean and enc.* (Other => 500) are proved for every placement of failures",
-        legs=[FAULTS, HTTP])
+        legs=[FAULTS, HTTP, STANDINS])
     cfg("C06", "proof", ["A2", "A4", "A9", "A13"], not_reached=[NR_SQL, NR_HTTP],
         explanation="Seq<u8> equalities end to end: handler passes exactly the concatenation of the chunks for every chunking (body.loop.*), library stores and returns the same sequence (av.accepted_state, gcv.found, gs.pair), handlers put exactly those bytes in the response body (enc.*)",
-        legs=[EXPLORE, SQLCONF, HTTP])
+        legs=[EXPLORE, SQLCONF, HTTP, STANDINS])
     cfg("C07", "proof", ["A1", "A4", "A13"], assumptions=[A["A1"]], not_reached=[NR_SQL, NR_MEM],
         explanation="every operation's postcondition fixes the whole post-state as a function of the pre-state in which existing versions / child links are only ever extended (add_version_spec inserts a fresh key; all other outcomes leave the maps equal); lemma L.immutable",
         legs=[EXPLORE, SQLCONF])
@@ -247,23 +248,23 @@ def _configure():
         legs=[EXPLORE, SQLCONF])
     cfg("C12", "proof", ["A7", "A8", "A10", "A12", "A13"], assumptions=[A["A7"], A["A8"]], not_reached=[NR_SQL, "the wall clock (A10)", "configuration wiring in main (C17)"],
         explanation="threshold functions equal floor(3t/2)/t spec for ALL targets without overflow (Verus over all i64/u32), urgency = max of both from the pre-request record (av.urgency), counter bumped by add_version_spec and reset by new_snap (storage contract)",
-        legs=[EXPLORE, KANI_URGENCY, SQLCONF])
+        legs=[EXPLORE, KANI_URGENCY, SQLCONF, STANDINS])
     cfg("C13", "exploration", ["A13"], not_reached=["the SQLite side is ONLY bounded; proved part: server.rs never calls storage outside the documented preconditions (st.*.pre call-site obligations) and the contract is functional"],
         explanation="bounded: the same executable contract is the oracle for all three backend configurations (in-memory, SQLite, SQLite re-opened before every request), so equal histories give equal responses up to ids/clock",
         legs=[EXPLORE, SQLCONF])
     cfg("C14", "proof", ["A9", "A11", "A13"], assumptions=[A["A9"]], not_reached=[NR_HTTP],
         explanation="enc.* postconditions of the four real handlers and server_error_to_actix / failure_to_ise: for EVERY possible library outcome the status, exact header list, content type and body are as the statement says (relative to the actix stand-ins)",
-        legs=[HTTP])
+        legs=[HTTP, STANDINS])
     cfg("C15", "proof", ["A9", "A11", "A12", "A13"], assumptions=[A["A9"]], not_reached=[NR_HTTP, "malformed path ids, unknown routes/methods: actix routing, assumed"],
         explanation="hdr.* / refuse.* / body.loop.*: any header bytes, content type and chunk stream either reach the library with exactly flat(chunks) (0 < size <= 100 MiB inclusive) or are refused with 4xx and an unchanged call log; no arithmetic overflow",
-        legs=[HTTP])
+        legs=[HTTP, STANDINS])
     cfg("C16", "proof", ["A2", "A9", "A13"], assumptions=[A["A9"]], not_reached=[NR_HTTP, "WebServer::new wiring (one constructor call) is covered by the bounded HTTP leg only"],
         explanation="client_id_header's postconditions (hdr.*) + the `authorised` precondition on every library entry point reachable from the handlers (auth.pre.*): a handler cannot reach the library, not even to open a transaction, for an id the allow-list excludes; 403 => call log unchanged",
-        legs=[HTTP])
+        legs=[HTTP, STANDINS])
     cfg("C20", "other", ["A9", "A13"], assumptions=[A["A9"], "that actix-web applies a scope's middleware to EVERY response of the scope (errors, unknown routes) is assumed, not verified"],
         not_reached=[NR_HTTP, "other middleware wrapped by the binary's main() around the whole App (ErrorHandlers, Logger)"],
         explanation="structural obligation cfg.cache on the real WebServer::config: exactly one scope is registered, wrapped by exactly one middleware, a DefaultHeaders adding Cache-Control with a value that forbids storage, and nothing else is wrapped around it; the implication to 'every response' rests on the assumed actix contract; the bounded HTTP leg checks the header on every response it sees (all routes, outcomes, refusals, unknown routes, storage failures)",
-        legs=[HTTP])
+        legs=[HTTP, STANDINS])
     cfg("C18", "proof", ["A4", "A6", "A11", "A13"], not_reached=[NR_SQL],
         explanation="every non-mutating outcome (reads, conflict, declined snapshot, unknown client, refused request) leaves the whole transaction view / call log equal up to the fault counter",
         legs=[EXPLORE, SQLCONF])
